@@ -1893,7 +1893,8 @@ class RepeatingEngine(Engine):
                     # As a remedy, use up any self._stateDict['repeatRetries'] before considering that
                     # the Engine is really finished when it does not terminate successfully after all of its
                     # producers have finished.
-                    if did_i_execute and my_process.returncode == 0 :
+                    # VV: my_process is None when the task generator raised: that is a failed execution (retry)
+                    if did_i_execute and my_process is not None and my_process.returncode == 0:
                         self.kill()
                     elif self._suicide:
                         self.log.info("Servicing my \"kill-after-producers-done-delay\"")
